@@ -34,7 +34,7 @@ func init() {
 			return err
 		}
 		// the same session validated before and after the attestation's window boundary passes
-		genSeq(cfg, emit, "C04", 18, 180, 100)
+		genSeq(cfg, emit, "C04", 30, 300, 100)
 		return nil
 	}
 	// C05: revocation of any delegation of the chain (and of decoys)
